@@ -270,6 +270,39 @@ def run(prog, rep, tier='quick', config='default'):
         if not hit:
             rep.violation('R10f', 'anchor-lost:forward-scan', fn=f.name, detail='anchor lost: forward scan over the deltas after the summary date')
 
+    # ------------------------------------------------------------------ R10g: every affiliate of the summarised range is found
+    # the scan that records, per affiliate, its last summarisable delta walks the whole range: the loop that fills the
+    # affiliate -> index map is left only when the range is exhausted (an early exit drops affiliates that traded earlier —
+    # e.g. one that has sold out — together with their carried-over gains)
+    AFMAP = re.compile(r'HashMap<(portfolio::model::affiliate::)?Affiliate, usize')
+    n_scan = 0
+    for f in fns:
+        if f.kind not in ('Fn', 'AssocFn'):
+            continue
+        for (nc, header, body) in f.iterator_loops():
+            fills = [c for c in f.calls if c.bb in body and c.short in ('insert', 'entry', 'or_insert', 'or_insert_with') and
+                     (AFMAP.search(f.ty.get(c.arg_local(0), '') or '') or re.search(r'(Vacant)?Entry<.*Affiliate, usize', f.ty.get(c.arg_local(0), '') or ''))]
+            if not fills:
+                continue
+            inner = [1 for (nc2, h2, b2) in f.iterator_loops() if h2 != header and h2 in body and any(c.bb in b2 for c in fills)]
+            if inner:
+                continue        # judged on the innermost loop holding the fill
+            n_scan += 1
+            normal, other = f.classify_loop_exits(nc, body)
+            # leaving through an error / panic path is not an early "found enough"
+            other = [(a, b) for (a, b) in other if not f.is_unreachable_block(b) and
+                     not any(c.short in ('from_residual', 'panic', 'panic_fmt', 'begin_panic', 'unwrap_failed', 'expect_failed') for c in f.calls if c.bb == b)]
+            k = '%s|affiliate-scan-covers-the-whole-range' % f.name
+            if other:
+                a, b = other[0]
+                rep.violation('R10g', k, where=f.where(f.blocks[a]['term']) if f.blocks[a]['term'] else nc.where(), fn=f.name,
+                              detail='the scan that finds each affiliate\'s last summarisable transaction can stop before the start of the range (bb%d -> bb%d): '
+                                     'an affiliate that only traded earlier (e.g. sold out) gets no summary rows and its past gains are lost' % (a, b))
+            else:
+                rep.ok('R10g', k, where=nc.where(), fn=f.name, detail='the loop filling the affiliate -> last-delta map ends only when the range is exhausted')
+    if n_scan == 0:
+        rep.violation('R10g', 'anchor-lost:affiliate-scan', detail='anchor lost: the loop that records each affiliate\'s last summarisable delta')
+
     # ------------------------------------------------------------------ R10d
     sname = simple[0].name if simple else ''
     host = [f for f in fns if f.kind in ('Fn', 'AssocFn') and f.name != sname and
